@@ -1,5 +1,3 @@
-//go:build wip_c13
-
 package props
 
 import (
@@ -25,19 +23,19 @@ import (
 //   - the schedule chain (constructor, schedule struct, activeForTime) is
 //     followed from the call that receives the condition's start/end fields.
 type ruModel struct {
-	c      *kit.Ctx
-	cond   *types.Named
-	rule   *types.Named
-	action *types.Named
-	point  *types.Named
-	cf     map[string]*types.Var // condition fields by point tag
-	af     map[string]*types.Var // action fields by point tag
-	pf     map[string]*types.Var // data.Point fields by name
+	c                                    *kit.Ctx
+	cond                                 *types.Named
+	rule                                 *types.Named
+	action                               *types.Named
+	point                                *types.Named
+	cf                                   map[string]*types.Var // condition fields by point tag
+	af                                   map[string]*types.Var // action fields by point tag
+	pf                                   map[string]*types.Var // data.Point fields by name
 	rID, rActive, rConds, rActs, rInacts *types.Var
-	aID    *types.Var
-	evals  []*kit.Func
-	ranges map[*kit.Func]*ruRanges
-	chain  *c14Chain // schedule chain, built on demand (no package-level state: runs may be concurrent)
+	aID                                  *types.Var
+	evals                                []*kit.Func
+	ranges                               map[*kit.Func]*ruRanges
+	chain                                *c14Chain // schedule chain, built on demand (no package-level state: runs may be concurrent)
 }
 
 const ruClientPkg = "client"
